@@ -664,6 +664,41 @@ def handleRoundTrip (st : State) (args : List String) (impl : List String) : Str
     | _, _, _ => "BAD-OP"
   | _ => "BAD-OP"
 
+/-- `REC <slot> <s> <text> <recorded ids> <recorded output> :: OK <ids> <decoded>` (C16): the model
+    and the implementation on a recorded reference input; both are judged against the record. -/
+def handleRec (st : State) (args : List String) (impl : List String) : String :=
+  let (args, tab) := splitOracle args
+  match args with
+  | [slot, s, text, wantIds, wantOut] =>
+    match slot.toNat?.bind (st.toks[·]?), parseBool s, parseHex text, parseIds wantIds, parseHex wantOut with
+    | some tk, some s, some t, some wantIds, some wantOut =>
+      let ext := mkExt tab
+      let (model, modelOk) :=
+        match tk.encode ext t s with
+        | .res (.ok ids) =>
+          (match tk.decode ext ids s with
+            | .res (.ok b) => (s!"OK {showIds ids} {toHex b}", ids == wantIds && b == wantOut)
+            | .res (.err _) => ("ERR decode", false)
+            | .res (.panic _) => ("PANIC", false)
+            | .miss w => (s!"MISS {w}", true))
+        | .res (.err _) => ("ERR encode", false)
+        | .res (.panic _) => ("PANIC", false)
+        | .miss w => (s!"MISS {w}", true)
+      let verdict :=
+        match impl with
+        | ["OK", ids, dec] =>
+          (match parseIds ids, parseHex dec with
+            | some ids, some dec =>
+              if ids != wantIds then "FAILS recorded-ids"
+              else if dec != wantOut then "FAILS recorded-output"
+              else if !modelOk then "FAILS model-differs-from-record"
+              else "HOLDS"
+            | _, _ => "NO-VERDICT")
+        | _ => "FAILS reference-input-rejected"
+      s!"{model} || {verdict}"
+    | _, _, _, _, _ => "BAD-OP"
+  | _ => "BAD-OP"
+
 end Kitoken.Driver
 
 namespace Kitoken.Driver
